@@ -41,6 +41,8 @@ func runC13(c *Ctx, idx int) {
 	if idx%3 == 0 {
 		specs := c17Specs("quick")
 		pg = conventionalPager(specs[r.Intn(len(specs))], r)
+	} else if idx%8 == 7 {
+		pg = genFolderPager(r)
 	} else {
 		pg = genPager(r, true)
 	}
